@@ -636,6 +636,8 @@ runLoop:
 			}
 			if processedUndecryptablePacket {
 				// if we processed any undecryptable packets, jump to the resetting of the timers directly
+				// Make sure that we send out ACKs (and CRYPTO data) for these packets: there's no timer for them.
+				c.pacingDeadline = deadlineSendImmediately
 				continue
 			}
 		}
